@@ -17,8 +17,8 @@ def grids(tier):
         N = list(range(1, 25)) + [32, 40]
         M = [1, 2, 3, 4, 5, 8, 9, 16, 17, 24, 40]
     else:
-        N = [1, 2, 3, 4, 5, 6, 8, 9, 12]
-        M = [1, 2, 4, 7, 12]
+        N = [1, 2, 3, 4, 5, 6, 8, 9, 11, 12]
+        M = [1, 2, 4, 7, 11, 12]
     return {"n": N, "m": M, "no": [8 * x for x in N], "f_deep": ["0", "100", "64n"], "r_deep": ["0", "100", "64n"],
             "ec_d": [3], "ec_deep": ["0", "500", "200n"], "k": [1, 2, 3], "l": [128, 192, 256], "base_count": [1, 10],
             "count": [1, 4, 16], "na": M, "nb": M}
